@@ -204,8 +204,40 @@ func TestCheck(t *testing.T) {
 				r.Distinct++
 			}
 		}
+		// 5. order on the wire format: Time64.Before / After on the converted
+		// values agree with the order of the times, for all pairs from the
+		// seconds grid x boundary nanoseconds whose whole seconds are less than
+		// 2^31 apart (the comparison's documented range), across era boundaries
+		for _, ref := range rs {
+			if !r.Mine() {
+				continue
+			}
+			var ts []time.Time
+			for _, off := range offs {
+				for _, ns := range nss {
+					ts = append(ts, time.Unix(ref.Unix()+off, ns).UTC())
+				}
+			}
+			for _, a := range ts {
+				ta := ntp.Time64FromTime(a)
+				for _, b := range ts {
+					if !a.Before(b) || b.Unix()-a.Unix() >= 1<<31 {
+						continue
+					}
+					tb := ntp.Time64FromTime(b)
+					r.Evals++
+					bad := tb.Before(ta) || ta.After(tb) || ta.Before(ta) || ta.After(ta)
+					if ta != tb && (!ta.Before(tb) || !tb.After(ta)) {
+						bad = true
+					}
+					if bad {
+						r.Fail("wire-order", "timestamp-order-not-preserved", fmt.Sprintf("ref=%v: %v < %v but timestamps %v / %v compare Before=%v/%v After=%v/%v", ref, a, b, ta, tb, ta.Before(tb), tb.Before(ta), ta.After(tb), tb.After(ta)), in{ref.Unix(), a.Unix(), int64(a.Nanosecond()), 0})
+					}
+				}
+			}
+		}
 		r.Sample(in{rs[3].Unix(), rs[3].Unix() - 100, 999_999_999, 0})
 		r.Sample(map[string]any{"references": len(rs), "ns_references": len(nsRefs), "fraction_step": step})
-		r.Extra["rule"] = "all 10^9 nanoseconds (1 reference quick, 3 thorough) + fractions (every 2^12-th and +-4096 around multiples of 2^28 quick, all 2^32 thorough) + 38 reference times (1970, 2024, +-{0,1,2,100,2^31-1,2^31} s around the era boundaries of 2036/2172/2308, mid-era, 2400, 2^33 s) x {window edges, all 2^16 second offsets around each era boundary in the window, a sweep of the window} x 7 boundary nanoseconds; distinct = distinct (reference, time) pairs"
+		r.Extra["rule"] = "all 10^9 nanoseconds (1 reference quick, 3 thorough) + fractions (every 2^12-th and +-4096 around multiples of 2^28 quick, all 2^32 thorough) + 38 reference times (1970, 2024, +-{0,1,2,100,2^31-1,2^31} s around the era boundaries of 2036/2172/2308, mid-era, 2400, 2^33 s) x {window edges, all 2^16 second offsets around each era boundary in the window, a sweep of the window} x 7 boundary nanoseconds; Time64.Before/After on all pairs of the 49 grid times per reference whose whole seconds are < 2^31 apart; distinct = distinct (reference, time) pairs"
 	})
 }
